@@ -174,6 +174,43 @@ def w_field(arg):
     return acc.res()
 
 
+def corners(w):
+    return sorted({0, 1, 1 << (w - 1), (1 << w) - 1})
+
+
+def w_joint(arg):
+    """joint conditions: the judged decoder's own fields at every combination of their corner values (0, 1, top bit only,
+    all ones) x every field of every OTHER decoder of the same message type at each of its corner values, the remaining
+    ME bits all zero or all one: the judged answer must be what its own fields say."""
+    spec_i = arg
+    name, tc, st, flds, fexp = SPECS[spec_i]
+    acc = Acc()
+    others = []
+    for j, (n2, tc2, st2, flds2, _) in enumerate(SPECS):
+        if j != spec_i and tc2 == tc and st2 == st:
+            for (s2, l2) in flds2:
+                if all(not (s2 < s1 + l1 and s1 < s2 + l2) for s1, l1 in flds) and (s2, l2) not in others:
+                    others.append((s2, l2))
+    own = list(itertools.product(*[corners(l) for s_, l in flds]))
+    for values in own:
+        fields = [(s_, l, v) for (s_, l), v in zip(flds, values)]
+        if st is not None:
+            fields.append((6, 2, st))
+        for (s2, l2) in others:
+            for v2 in corners(l2):
+                keep = keepset(*[(a, a + b - 1) for a, b in flds], (s2, s2 + l2 - 1))
+                if st is not None:
+                    keep |= {6, 7}
+                for bg in (0, ME_ONES):
+                    msg = vary_case(frame(tc, fields + [(s2, l2, v2)], bg, keep), acc.n)
+                    acc.n += 1
+                    s = judge_field(spec_i, values, msg)
+                    if s:
+                        acc.bad(s + ":joint_with_ME%d" % s2, {"kind": "field", "spec": spec_i, "name": name, "values": list(values), "msg": msg})
+        acc.out.add(("joint", name, st, tuple(values)))
+    return acc.res()
+
+
 # ------------------------------------------------------------------ accuracy / integrity categories
 def judge_cat(kind, p):
     """category fields carried in TC19/29/31 and look-ups; returns signature or None."""
@@ -414,14 +451,14 @@ def w_tc28(_):
 def w_any(t):
     if t[0] == "e":
         return w_tc28(None)
-    return {"f": w_field, "c": w_cats, "l": w_lookups}[t[0]](t[1])
+    return {"f": w_field, "c": w_cats, "l": w_lookups, "j": w_joint}[t[0]](t[1])
 
 
 def run(ctx):
     import random
     rng = random.Random(ctx.seed)
     bgs = BGS + [rng.getrandbits(56) for _ in range(2)]
-    tasks = [("c", None), ("l", None), ("e", None)]
+    tasks = [("c", None), ("l", None), ("e", None)] + [("j", i) for i in range(len(SPECS))]
     for i, (name, tc, st, flds, fexp) in enumerate(SPECS):
         combos = list(itertools.product(*[range(1 << l) for s, l in flds]))
         sub = set(combos[:2] + combos[-2:] + combos[len(combos) // 2:len(combos) // 2 + 2])
@@ -437,7 +474,8 @@ def replay(case):
     k = case["kind"]
     if k == "field":
         s = judge_field(case["spec"], tuple(case["values"]), case["msg"])
-        return [(s, case), (s + ":bg1", case), (s + ":depends_on_identity_code", case)] if s else []
+        return ([(s, case), (s + ":bg1", case), (s + ":depends_on_identity_code", case)] +
+                [(s + ":joint_with_ME%d" % b_, case) for b_ in range(1, 57)]) if s else []
     if k == "cat":
         if case["sub"] == "mono":
             return [(s, c) for s, c in w_cats(None)["viols"]]
